@@ -52,6 +52,10 @@ HOSTILE = [
     H40[:8] + b" (A U Thor 2020-13-45 99:00:00 +0000 1) x",
     H40[:8] + b" (\xe6\xbc\xa2\xe6\xbc\xa2\xe6\xbc\xa2 2020-01-01 00:00:00 +0000 1) x",
     H40[:8] + b" (A 2020-01-01 00:00:00 +9999 1)",
+    # blame lines as `git blame --color-by-age` / `--color-lines` hand them over: some coloured, some not
+    b"\x1b[31m" + H40[8:16] + b" (B 2023-01-01 00:00:00 +0000 2) y\x1b[m",
+    b"\x1b[36m" + H40[:8] + b" (A U Thor 2020-01-01 00:00:00 +0000 3) z\x1b[m",
+    H40[8:16] + b" (B 2023-01-01 00:00:00 +0000 4) w",
     b"f.rs:0:x", b"f.rs:99999999999999999999:x",
     b'{"type":"match","data":{"path":{"text":"f.rs"},"lines":{"text":"ab\\n"},"line_number":0,"absolute_offset":0,"submatches":[]}}',
     b'{"type":"match","data":{"path":{"text":"f.rs"},"lines":{"text":"a\\t\xe2\x82\xac\xe2\x82\xac\xe2\x82\xac\xe2\x82\xac\\t\\n"},"line_number":3,"absolute_offset":0,"submatches":[{"match":{"text":"a"},"start":0,"end":1}]}}',
